@@ -129,4 +129,13 @@ def streams(seed, tier):
         cases = [stepgen.step_case(rng, name, names, safe) for _ in range(n)]
         out.append(Stream("random-%s" % name.split("*")[1].lower(), "run", "run.check", cases,
                           "%d random shaped states for %s, both profiles" % (n, name)))
+    # 5. neighbour positions beyond 65535 (release build: no oracle table): positions without a record are skipped, never wrapped
+    far = []
+    for name in VALS:
+        for (size, centre) in ((70000, 65537), (65540, 65536)):
+            far.append(one_case(1, name, [0, size, centre, 1], [fbits(1.0)], code=[int_record(10), int_record(20), int_record(30), typed_record(4)]))
+    stf = Stream("positions-beyond-65535", "run", "run.check", far, "LIST.NEIGHBOR*BVALS / IVALS / FVALS on a 1-D topology of 70000 positions around position 65537 with 4 records on the CODE stack: nothing is addressed")
+    stf.per_shard = 1
+    stf.timeout = 600
+    out.append(stf)
     return out
